@@ -458,7 +458,7 @@ def _loop_bound(P, fn, cz, N, L, minus, inv, field_consts, depth):
         src(N), show(t), L)
 
 
-def _ensures_below(P, h, field, inv, field_consts, L, minus):
+def _ensures_below(P, h, field, inv, field_consts, L, minus, depth=0):
     """In helper h: no path reaches `return <non-zero>` without either the branch outcome `field < B`
     (B bounded by <= L) or a reset of `field` to 0 (in h or in a function of the file it calls)."""
     from .flow import find_path_avoiding
@@ -502,7 +502,18 @@ def _ensures_below(P, h, field, inv, field_consts, L, minus):
         return holds_below
     trues = [r for r in h.returns() if r.c and r.c[0] is not None and r.c[0].cv not in (0, None)]
     other = [r for r in h.returns() if r.c and r.c[0] is not None and r.c[0].cv is None]
-    if not trues or other:
+    # `return refill(dec);`: true only when that helper is, and the helper has the same property
+    for r in other:
+        x = r.c[0].strip_casts()
+        sub = None
+        if x.k == "CallExpr" and x.callee and depth < 3:
+            for g in P.by_name.get(x.callee, []):
+                if g.file == h.file and g.cfg is not None and g.key() != h.key():
+                    sub = _ensures_below(P, g, field, inv, field_consts, L, minus, depth + 1)
+        if sub is None:
+            return None
+        limits.append(sub)
+    if not trues and not other:
         return None
     for r in trues:
         if find_path_avoiding(h.cfg, resets, lambda e, r=r: e is r, cut) is not None:
